@@ -676,7 +676,6 @@ func (g *Gen) tagColliders(p *prng, name string, n int) []string {
 	return nil
 }
 
-
 // versColliders returns VERS range texts (numeric variations of corpus ranges)
 // that share a bucket under a seeded hash function at a 4096-entry mask.
 func (g *Gen) versColliders(p *prng, n int) []string {
